@@ -288,6 +288,10 @@ func c11History(r *Run, ps []*pdu.DeliverSM, bucket string) {
 		r.Case("combine "+input, fmt.Sprintf("chk_combine %s %s Panic", coqSegTable(table), coqNatList(hist)))
 		return
 	}
+	if _, _, _, _, info := judgeFull(table, hist, obs); info.lenient {
+		lenientCase(r, table, hist, obs, info) // what is done with malformed segments is left open: returns normally + the well-formed keys
+		return
+	}
 	r.Case("combine "+input, fmt.Sprintf("chk_combine_proj %s %s %s (Ok %s)", coqSegTable(table), coqNatList(hist), coqNatList(projOf(table, hist)), coqTrace(projOf(table, hist), obs.Trace)))
 }
 
